@@ -79,7 +79,9 @@ class Bounded(FnTask):
 # space and remove leading and trailing whitespace"), written without regular expressions
 # ------------------------------------------------------------------------------------------------
 
-def ref_trim(s: str) -> str:
+def ref_trim(s: str, breaks: str = "\n\r") -> str:
+    """`breaks`: the characters that are line breaks.  The lexer rewrites every line break of the source to
+    Environment.newline_sequence ('\\n', '\\r\\n' or '\\r'), so a carriage return is a line break too (C33_4)."""
     s = s.strip()
     out, i = [], 0
     while i < len(s):
@@ -88,12 +90,19 @@ def ref_trim(s: str) -> str:
             while j < len(s) and s[j].isspace():
                 j += 1
             run = s[i:j]
-            out.append(" " if "\n" in run else run)
+            out.append(" " if any(c in run for c in breaks) else run)
             i = j
         else:
             out.append(s[i])
             i += 1
     return "".join(out)
+
+
+def classify_trim(w):
+    """a failing input on which the two readings of "line break" differ is the carriage-return class"""
+    if ref_trim(w["s"]) != ref_trim(w["s"], "\n"):
+        return "carriage-return-is-a-line-break"
+    return None
 
 
 TRIM_ALPHA = ["a", " ", "\n", "\t", "\r", "%"]
@@ -104,7 +113,7 @@ def cases_trim(tier, seed):
     for n in range(top + 1):
         for t in itertools.product(TRIM_ALPHA, repeat=n):
             yield {"s": "".join(t)}
-    for s in ("  a \n b  ", "a\n\n\nb", "\n", " \x0b\n\x0c a", "a \r\n b", "a \n b", "a b", "a  b", "%(x)s \n %%"):
+    for s in ("  first line\r    second line  \r", "  a \n b  ", "a\n\n\nb", "\n", " \x0b\n\x0c a", "a \r\n b", "a \n b", "a b", "a  b", "%(x)s \n %%"):
         yield {"s": s}
 
 
@@ -162,8 +171,9 @@ def build_source(w):
     return src, found == intended
 
 
-def block_text(parts, names, values, autoescape, trim):
-    """the text of one form of the block with the variables substituted (the property's oracle)"""
+def block_text(parts, names, values, autoescape, trim, newline="\n"):
+    """the text of one form of the block with the variables substituted (the property's oracle); line breaks of the
+    source appear as Environment.newline_sequence (api.rst: "The sequence that starts a newline")"""
     marks = {}
     msg = ""
     for p in parts:
@@ -175,6 +185,7 @@ def block_text(parts, names, values, autoescape, trim):
             msg += m
     if trim:
         msg = ref_trim(msg)
+    msg = msg.replace("\n", newline)
     for m, v in marks.items():
         if isinstance(v, list):  # ["markup", text]: a value that is already safe
             sv = v[1]
@@ -191,7 +202,7 @@ def expected(w):
     sing = w["singular"]
     plur = w.get("plural")
     if plur is None:
-        return ("text", block_text(sing, names, values, w["autoescape"], trim))
+        return ("text", block_text(sing, names, values, w["autoescape"], trim, w.get("newline_sequence", "\n")))
     defs = w.get("defs") or []
     if w.get("pluralize_arg"):
         cname = w["pluralize_arg"]
@@ -208,7 +219,7 @@ def expected(w):
             return ("syntax_error",)
     count = values[cname]
     form = sing if count == 1 else plur
-    return ("text", block_text(form, names, values, w["autoescape"], trim))
+    return ("text", block_text(form, names, values, w["autoescape"], trim, w.get("newline_sequence", "\n")))
 
 
 class _Recorder:
@@ -233,7 +244,7 @@ class _Recorder:
 
 
 def make_env(w):
-    env = Environment(extensions=["jinja2.ext.i18n"], autoescape=bool(w["autoescape"]))
+    env = Environment(extensions=["jinja2.ext.i18n"], autoescape=bool(w["autoescape"]), newline_sequence=w.get("newline_sequence", "\n"))
     env.policies["ext.i18n.trimmed"] = bool(w.get("policy"))
     rec = None
     how = w.get("install", "callables")
@@ -326,6 +337,9 @@ def check_render(w):
 def classify_render(w):
     """identifies the class of a failing input (for known_findings keys)"""
     sing, plur = w["singular"], w.get("plural")
+    if w.get("newline_sequence", "\n") != "\n":
+        trim = (w["modifier"] == "trimmed") if w.get("modifier") else bool(w.get("policy"))
+        return f"newline_sequence={w['newline_sequence']!r}:" + ("trimmed" if trim else "untrimmed")
     refs = [p for p in sing + (plur or []) if p[0] == "v"]
     text = "".join(p[1] for p in sing + (plur or []) if p[0] == "t")
     feats = ["newstyle" if w["newstyle"] else "oldstyle"]
@@ -407,6 +421,7 @@ def _cases_render(tier, seed):
                                     yield {"names": list(names), "values": values, "defs": defs, "ctx": ctx, "modifier": mod, "policy": pol,
                                            "singular": sing, "plural": plur, "pluralize_arg": parg, "newstyle": ns, "autoescape": ae,
                                            "install": "callables", "babel": False}
+    yield from _cases_newline(tier, seed)
     # ---- C: values that are already safe are not escaped again
     for ns, ae in modes:
         for parts in _parts(2, ["a", "%", "<"], 2):
@@ -414,11 +429,80 @@ def _cases_render(tier, seed):
                    "singular": parts, "plural": None, "pluralize_arg": None, "newstyle": ns, "autoescape": ae, "install": "callables", "babel": False}
 
 
+def _cases_newline(tier, seed):
+    """D (C33_4): the other newline sequences; line breaks of the source reach the block as that sequence"""
+    for nl in ("\r", "\r\n"):
+        for parts in _parts(3, ["a", "\n", " "], 1):
+            if not any(p == ["t", "\n"] for p in parts):
+                continue
+            for mod, pol in ((None, False), ("trimmed", False), (None, True), ("notrimmed", True)):
+                for ns in (False, True):
+                    yield {"names": ["v0", "v1"], "values": {"v0": 1, "v1": "<b>"}, "defs": [], "ctx": None, "modifier": mod, "policy": pol,
+                           "singular": parts, "plural": None, "pluralize_arg": None, "newstyle": ns, "autoescape": False, "install": "callables",
+                           "babel": False, "newline_sequence": nl}
+
+
 RENDER_BOUND = ("quick tier: trans blocks of up to 2 parts (pluralized: 1 + 1 parts over {a, %, <, newline}); thorough tier: up to 3 parts (pluralized: 2 + 2 parts over all pieces); over the text pieces {a, %, %%, {, <, newline} and "
                 "references to up to 2 variables (named v0/v1 or num/context), variables bound in the tag / free / partly bound, "
                 "with and without a context string, pluralize with and without an argument, counts 1 and 2, trimmed / notrimmed / "
                 "policy ext.i18n.trimmed, old- and new-style gettext, autoescape on and off, identity translations installed through "
-                "install_null_translations / install_gettext_translations / install_gettext_callables; values 1, 2, '<b>', Markup('<i>')")
+                "install_null_translations / install_gettext_translations / install_gettext_callables; values 1, 2, '<b>', Markup('<i>'); "
+                "newline_sequence \\r and \\r\\n for blocks of up to 3 parts over {a, newline, space}")
+
+
+# ------------------------------------------------------------------------------------------------
+# C33_2 (hunt): a trans block in a macro / block body that runs under another {% autoescape %} setting than the one it was
+# compiled under.  Oracle (differential, the property's reading): the block renders like the same text written without
+# {% trans %} at the same place - the literal text of the block is never escaped by the block itself, the variable value
+# is escaped (or not) like a plain {{ v0 }} there; where the compile-time and the run-time flag disagree either treatment
+# of the VARIABLE is accepted.
+# ------------------------------------------------------------------------------------------------
+SCOPED_PIECES = [["t", "<b>"], ["t", "a"], ["v", 0]]
+
+
+def scoped_source(w, trans):
+    body = "".join(p[1] if p[0] == "t" else "{{ v0 }}" for p in w["parts"])
+    if trans:
+        body = "{% trans %}" + body + "{% endtrans %}"
+    flag = "true" if w["override"] else "false"
+    if w["wrapper"] == "macro":
+        return "{% macro m(v0) %}" + body + "{% endmacro %}{% autoescape " + flag + " %}{{ m(v0) }}{% endautoescape %}"
+    if w["wrapper"] == "block":
+        return "{% autoescape " + flag + " %}{% block b %}" + body + "{% endblock %}{% endautoescape %}"
+    if w["wrapper"] == "call":
+        return "{% macro m() %}[{{ caller() }}]{% endmacro %}{% autoescape " + flag + " %}{% call m() %}" + body + "{% endcall %}{% endautoescape %}"
+    return "{% autoescape " + flag + " %}" + body + "{% endautoescape %}"
+
+
+def cases_scoped(tier, seed):
+    for wrapper in ("macro", "block", "call", "plain"):
+        for env_ae in (False, True):
+            for override in (False, True):
+                for n in (1, 2):
+                    for parts in itertools.product(SCOPED_PIECES, repeat=n):
+                        for ns in (False, True):
+                            yield {"wrapper": wrapper, "env_autoescape": env_ae, "override": override, "parts": [list(p) for p in parts], "newstyle": ns}
+
+
+def check_scoped(w):
+    env = Environment(extensions=["jinja2.ext.i18n"], autoescape=bool(w["env_autoescape"]))
+    env.install_null_translations(newstyle=bool(w["newstyle"]))
+    src_t, src_p = scoped_source(w, True), scoped_source(w, False)
+    desc = f"Environment(autoescape={w['env_autoescape']}) newstyle={w['newstyle']} {src_t!r} with v0='<i>'"
+    accepted = []
+    for v in ("<i>", Markup("<i>"), str(escape("<i>"))):
+        accepted.append(str(env.from_string(src_p).render(v0=v)))
+    if w["env_autoescape"] == w["override"]:
+        accepted = accepted[:1]
+    try:
+        got = str(env.from_string(src_t).render(v0="<i>"))
+    except Exception as ex:  # noqa
+        return True, f"{desc}: {type(ex).__name__}: {ex}"
+    return got not in accepted, f"{desc}: rendered {got!r}; the same text without trans at the same place renders {accepted[0]!r}" + (f" (also accepted: {accepted[1:]!r})" if len(accepted) > 1 else "")
+
+
+def classify_scoped(w):
+    return f"{w['wrapper']}:compiled-under-autoescape={w['env_autoescape']}:run-under-autoescape={w['override']}"
 
 
 # ------------------------------------------------------------------------------------------------
@@ -552,7 +636,10 @@ def native_tasks():
     for i in range(nsh):
         ts.append(Bounded(f"C33.bounded.render[{i}]", cases_render(i, nsh), check_render, RENDER_BOUND + f" (shard {i}; {QUICK_SHARDS} shards in the quick tier, {nsh} in the thorough tier)",
                           classify_render, thorough_only=i >= QUICK_SHARDS, res_name="C33.bounded.render"))
-    ts.append(Bounded("C33.bounded.trim", cases_trim, check_trim, "all strings of length <= 6 over {a, space, newline, tab, CR, %} plus a few fixed strings with other whitespace"))
+    ts.append(Bounded("C33.bounded.trim", cases_trim, check_trim, "all strings of length <= 6 over {a, space, newline, tab, CR, %} plus a few fixed strings with other whitespace", classify_trim))
+    ts.append(Bounded("C33.bounded.scoped_autoescape", cases_scoped, check_scoped,
+                      "trans blocks of up to 2 parts over {<b>, a, one variable} inside a macro / block / call block / plain, under {% autoescape true|false %}, "
+                      "environment autoescape on and off, both gettext styles", classify_scoped))
     ts.append(Bounded("C33.bounded.comment_finder", cases_comment_finder, check_comment_finder,
                       "token lists of up to 3 tokens (tagged / untagged / empty comments, line comments, data) on up to 4 lines, one or two queries"))
     ts.append(FnTask(PROP, "C33.babel_extract.options", babel_options, "table", replay_babel_options))
